@@ -248,6 +248,7 @@ def run(P, R, tier):
     warnbudget_rule(P, R)
     reentry_rule(P, R)
     scancount_rule(P, R)
+    rowtypes_rule(P, R)
     replacegrow_rule(P, R)
     stdthrow_census(P, R, reach)
 
@@ -1580,3 +1581,48 @@ def scancount_rule(P, R):
                                     "std::length_error / bad_alloc out of the API" % (v, scanned[v], T.callee_name(c), T.text(a)[:40]), file=g["file"], line=c[1], function=g["q"])
     if n_inst < 2:
         R.anchor_missing(RULE, "only %d scanned counts that size a container (read_advection: 2)" % n_inst)
+
+
+def rowtypes_rule(P, R):
+    """string_to_spread_row keeps three parallel records per cell of a SOLUTION_SPREAD line: the text (str_vector), the type (type_vector)
+    and the count; read_solution_spread and spread_row_to_solution index both vectors up to `count`.  Within one iteration of the
+    splitting loop every path that reaches `count++` must have pushed a text and a type (the asserts that say so are compiled out in
+    release builds): otherwise a cell of unknown type makes the callers read past the end of type_vector."""
+    RULE = "C08.rowtypes"
+    R.rule(RULE, "string_to_spread_row: every path of the splitting loop that counts a cell has pushed its text and its type", minimum=2)
+    f = P.one("Phreeqc::string_to_spread_row")
+    loops = [x for x in T.walk(f["body"]) if x[0] in ("For", "While") and any(
+        how == "++" and T.access_path(t)[1][-1:] == [("f", "spread_row::count")] for t, how, line, n in T.writes(x))]
+    if len(loops) != 1:
+        R.anchor_missing(RULE, "string_to_spread_row: %d loops increment spread_row::count" % len(loops))
+        return
+    loop = loops[0]
+    body = loop[5] if loop[0] == "For" else loop[3]
+    cfg = T.CFG({"body": body, "line": loop[1], "endline": loop[1]})
+
+    def pushes(n, fld):
+        return T.is_node(n) and any(T.callee_name(c) == "push_back" and T.is_node(T.call_obj(c)) and any(
+            y[0] == "Member" and y[2] == fld for y in T.walk(T.call_obj(c))) for c in T.calls(n))
+
+    def counts(n):
+        return T.is_node(n) and any(how == "++" and T.access_path(t)[1][-1:] == [("f", "spread_row::count")] for t, how, line, w in T.writes(n))
+    for fld in ("spread_row::str_vector", "spread_row::type_vector"):
+        seen, st, bad = {cfg.entry}, [cfg.entry], None
+        while st:
+            x = st.pop()
+            n = cfg.nodes[x]["n"]
+            if pushes(n, fld):
+                continue
+            if counts(n):
+                bad = cfg.nodes[x]["line"]
+                break
+            for y in cfg.nodes[x]["succ"]:
+                if y not in seen:
+                    seen.add(y)
+                    st.append(y)
+        inst = fld.split("::")[-1]
+        if bad is None:
+            R.ok(RULE, inst, "pushed on every path of the loop body before count++")
+        else:
+            R.violation(RULE, inst, "a path through the splitting loop reaches count++ (line %d) without a push_back to %s: count exceeds the vector's length and the callers "
+                        "index past its end (crash on a cell of unknown type)" % (bad, inst), file=f["file"], line=bad, function=f["q"])
